@@ -129,7 +129,14 @@ pub broadcast axiom fn axiom_concat2<X>(s: Seq<Vec<X>>, r: Vec<X>)
     requires #[trigger] concat_spec(s, r), s.len() == 2,
     ensures r@ == s[0]@ + s[1]@;
 
+/// std's `Hash`/`Eq` for `String` are deterministic and agree
+pub broadcast axiom fn axiom_string_key_model()
+    ensures #[trigger] vstd::std_specs::hash::obeys_key_model::<String>();
+
 pub broadcast group group_std_ext {
+    axiom_string_key_model,
+    axiom_parse_u64,
+    axiom_pat_view_str,
     axiom_str_of,
     axiom_concat2,
     axiom_string_ext,
@@ -210,4 +217,55 @@ pub proof fn lemma_muldiv_mono(a1: nat, a2: nat, b: nat, c: nat)
     let p = a1 * b; let q = a2 * b;
     assert(p / c <= q / c) by (nonlinear_arith) requires p <= q, c > 0;
 }
+}
+verus! {
+pub open spec fn is_ascii_alpha(c: char) -> bool { (65 <= c as u32 <= 90) || (97 <= c as u32 <= 122) }
+pub assume_specification[ char::is_ascii_alphabetic ](c: &char) -> (r: bool)
+    ensures r == is_ascii_alpha(*c);
+#[verifier::external_trait_specification]
+pub trait ExPattern: Sized {
+    type ExternalTraitSpecificationFor: core::str::pattern::Pattern;
+}
+/// the text a `Pattern` argument matches (only `&str` patterns are used by the repo)
+pub uninterp spec fn pat_view<P>(p: P) -> Seq<char>;
+pub broadcast axiom fn axiom_pat_view_str(p: &str)
+    ensures #[trigger] pat_view(p) == p@;
+pub assume_specification<P: core::str::pattern::Pattern>[ str::starts_with::<P> ](s: &str, p: P) -> (r: bool)
+    ensures r == (s@.len() >= pat_view(p).len() && s@.take(pat_view(p).len() as int) == pat_view(p));
+pub assume_specification<'a, P: core::str::pattern::Pattern>[ str::strip_prefix::<P> ](s: &'a str, p: P) -> (r: Option<&'a str>)
+    ensures
+        r is Some <==> (s@.len() >= pat_view(p).len() && s@.take(pat_view(p).len() as int) == pat_view(p)),
+        r is Some ==> r->Some_0@ == s@.skip(pat_view(p).len() as int)
+            && r->Some_0.len() == str_byte_len(s@.skip(pat_view(p).len() as int));
+/// u64 decimal parsing (`FromStr for u64`): digits, with an optional leading `+`
+pub uninterp spec fn parse_u64_ok(s: Seq<char>) -> bool;
+#[verifier::external_type_specification]
+#[verifier::external_body]
+pub struct ExParseIntError(std::num::ParseIntError);
+}
+verus! {
+pub assume_specification<T, E>[ Option::<Result<T, E>>::transpose ](o: Option<Result<T, E>>) -> (r: Result<Option<T>, E>)
+    ensures r == (match o {
+        None => Ok::<Option<T>, E>(None),
+        Some(Ok(v)) => Ok::<Option<T>, E>(Some(v)),
+        Some(Err(e)) => Err::<Option<T>, E>(e),
+    });
+
+#[verifier::external_trait_specification]
+pub trait ExFromStr: Sized {
+    type ExternalTraitSpecificationFor: core::str::FromStr;
+    type Err;
+}
+/// whether `s.parse::<F>()` succeeds
+pub uninterp spec fn parse_ok<F>(s: Seq<char>) -> bool;
+pub assume_specification<F: core::str::FromStr>[ str::parse::<F> ](s: &str) -> (r: Result<F, <F as core::str::FromStr>::Err>)
+    ensures r is Ok <==> parse_ok::<F>(s@);
+pub open spec fn is_digit(c: char) -> bool { 48 <= c as u32 <= 57 }
+pub open spec fn all_digits(s: Seq<char>) -> bool { forall|i: int| 0 <= i < s.len() ==> is_digit(#[trigger] s[i]) }
+/// core::num `from_str_radix` for u64 (truthful): non-empty, an optional leading `+`, then digits
+pub broadcast axiom fn axiom_parse_u64(s: Seq<char>)
+    requires #[trigger] parse_ok::<u64>(s),
+    ensures s.len() >= 1 && (all_digits(s) || (s[0] == '+' && s.len() >= 2 && all_digits(s.skip(1))));
+pub assume_specification[ char::is_ascii_digit ](c: &char) -> (r: bool)
+    ensures r == is_digit(*c);
 }
